@@ -149,9 +149,17 @@ Get(s, f) == /\ s \in 1..n /\ f \in F /\ Install(GetRec(ImplState, s, f).st) /\ 
 \* state unchanged or as Repr(s) leaves it (both by definition of EqRec and GetRec), and their
 \* RESULTS are checked in every reachable state by GetOK and EqOK below.  The trace
 \* specification uses all six actions.
-Next == \/ n < MaxRoots /\ \E d \in Dicts, L \in RootLims : New(d, L)
-        \/ \E p \in 1..n, u \in Dicts : MakeChild(p, u)
-        \/ \E s \in 1..n : Hash(s) \/ Repr(s)
+\* (the disjuncts are split by the branch of the code they take, for -coverage)
+AtLimit(p)   == lim[p] = NONE \/ anc[p] >= lim[p]
+NewStep      == n < MaxRoots /\ \E d \in Dicts, L \in RootLims : New(d, L)
+LinkStep     == \E p \in 1..n, u \in Dicts : ~AtLimit(p) /\ MakeChild(p, u)
+FlattenStep  == \E p \in 1..n, u \in Dicts : AtLimit(p) /\ MakeChild(p, u)
+HashCondStep == \E s \in 1..n : father[s] # 0 /\ Hash(s)
+HashRootStep == \E s \in 1..n : father[s] = 0 /\ Hash(s)
+ReprCondStep == \E s \in 1..n : father[s] # 0 /\ Repr(s)
+ReprRootStep == \E s \in 1..n : father[s] = 0 /\ Repr(s)
+Next == \/ NewStep \/ LinkStep \/ FlattenStep
+        \/ HashCondStep \/ HashRootStep \/ ReprCondStep \/ ReprRootStep
 Spec == Init /\ [][Next]_vars
 
 -----------------------------------------------------------------------------
